@@ -209,7 +209,7 @@ def population(m):
 
 def prebuild_variants(ctx, rng, home):
     from bridgepoint import prebuild
-    g = pbgen.Gen(rng, home)
+    g = pbgen.Gen(rng, home, bare_constants=True)
     tree = g.program()
     ref = None
     lower = None
